@@ -1,4 +1,4 @@
 (* Extraction of the C01 sparse storage / kernel model: ExtrOcamlBasic only, no Extract Constant. *)
 Require Import ExtrOcamlBasic.
-From SharkV Require Import C01SparseModel C01SparseMatModel C01SparseExpr C01SparseExec.
+From SharkV Require Import C01SparseModel C01SparseMatModel C01SparseExpr C01BlockModel C01SparseExec.
 Extraction "c01_sparse_model.ml" run_cmd st_empty getv getm v_ok m_ok sm_reserved sm_major.
